@@ -1,7 +1,7 @@
 #!/bin/sh
-# usage: run_r3.sh <seed id>...   (seedtest with the check of the owning property -> scratch/seedres3/<id>.json)
-cd /verif; mkdir -p scratch/seedres3
+# usage: run_r3.sh <seed id>...   (seedtest with the check of the owning property -> scratch/seedres$R/<id>.json)
+cd /verif; R=${ROUND:-3}; mkdir -p scratch/seedres$R
 for id in "$@"; do
   d=seeded/$id; pid=$(python3 -c "import json;print(json.load(open('$d/meta.json'))['property'])")
-  [ -f scratch/seedres3/$id.json ] || python3 tools/seedtest.py $d/patch.diff $d/demo.py $pid > scratch/seedres3/$id.json 2>&1
+  [ -f scratch/seedres$R/$id.json ] || python3 tools/seedtest.py $d/patch.diff $d/demo.py $pid > scratch/seedres$R/$id.json 2>&1
 done
